@@ -17,6 +17,12 @@ CHECKS = {
  "C04": ("exploration", "per-instruction precondition monitor at a build-tagged VM hook + runtime-error classification",
    "Every instruction executed by accepted programs (example programs over their testdata, 1k/15k well-typed generated programs, 3k/45k 'loose' type-confused mutants of generated and example programs) is checked, before it runs, against a per-opcode table of stack depth / operand representation / index range preconditions; every runtime-error message is classified as explicit checked condition vs internal fault; panics and an instruction budget are watched. Known ill-typed-but-accepted families (C04-a..f) are classified by instruction family + offending representation.",
    "Trusted: the precondition table (validated: silent on the example programs; each report is confirmed by the VM's own reaction except for Jnm/Jm/Strptime which tolerate silently). Unclassified error messages make the run inconclusive.", "§4 C04, App. B"),
+ "C05": ("exploration", "differential execution: VM with history vs freshly compiled VM loaded with the same metric state",
+   "500/15k generated 'stateful' programs (strptime under three layouts on repeated strings, failing conversions, stop, zero divisors, optional groups) x 20/26 lines: at every prefix a fresh compile whose metrics are loaded with the running VM's state processes the next line alongside it; stores (values, label sets, expiry, timestamps) and runtime-error bits must agree.",
+   "State transferred through the public datum API; timestamps equal unless both lie in the probe's wall-clock bracket.", "§4 C05"),
+ "C07": ("exploration", "oracle monitor: Go time package vs timestamp() and datum timestamps, per line",
+   "2.5k/80k (program, line sequence) cases over 23 layouts (Go reference layouts, syslog/apache variants, ambiguous pairs), 5 override time zones, current-year option on/off; rendered instants incl. DST fold/gap, invalid and repeated values, >64 distinct values, settime boundary values, lines with no time statement (clock bracket).",
+   "Go's time package is the oracle; datum instants compared only when representable in int64 ns; year read before/after accepted for the current-year option.", "§4 C07"),
  "C08": ("exploration", "runtime reference-model monitor (injective-key map, datum identity)",
    "All tuples of arity 1-2 over components of length<=3 from {'-','\\\\','a'} are created in one real Metric and datum identity is checked to be a bijection (covers every ordered pair of that universe); every pair colliding under a naive encoding, plus 20k/400k random adversarial pairs of arity 1-4, go through a create/set/find/expire/emit/remove/re-create sequence against a reference map.",
    "Held on the tuples/pairs executed; trusted: Go maps, pointer equality, the harness's injective encoding.", "§4 C08"),
